@@ -170,8 +170,22 @@ func label(kind string, ptr uintptr) string {
 	return vsched.ObjLabel("ch", ptr)
 }
 
+// conv turns the sent operand into the channel's element type (the operand may be an
+// untyped constant's default type or a concrete type assigned to an interface element).
+func conv[T any](v any) T {
+	if t, ok := v.(T); ok {
+		return t
+	}
+	var zero T
+	if v == nil {
+		return zero
+	}
+	return reflect.ValueOf(v).Convert(reflect.TypeOf(&zero).Elem()).Interface().(T)
+}
+
 // Send is `ch <- v`.
-func Send[T any](ch chan<- T, v T) {
+func Send[T any, V any](ch chan<- T, v0 V) {
+	v := conv[T](v0)
 	if !vsched.Active() {
 		ch <- v
 		return
@@ -273,7 +287,8 @@ func (c *Case[T]) setRecv(v reflect.Value, ok bool) {
 func R[T any](ch <-chan T) *Case[T] { return &Case[T]{ch: reflect.ValueOf(ch)} }
 
 // S builds a send case.
-func S[T any](ch chan<- T, v T) *Case[T] {
+func S[T any, V any](ch chan<- T, v0 V) *Case[T] {
+	v := conv[T](v0)
 	return &Case[T]{send: true, ch: reflect.ValueOf(ch), val: reflect.ValueOf(&v).Elem()}
 }
 
